@@ -35,6 +35,9 @@ Muts == {"none", "dest_foreign", "dest_absent", "dest_other_binding", "stale", "
          \* stale_offset / future_offset: IssueInstant 30 hours away, written as local time with a numeric zone designator
          \* (+14:00 / -12:00) -- not the UTC form SAML demands; read without the designator it would fall inside the window
          "stale_offset", "future_offset",
+         \* dest_extends: a Destination that begins with an own endpoint and goes on (path, host suffix)
+         \* bad_enum: an attribute of an enumerated type with a value outside the enumeration (Comparison="strongest")
+         "dest_extends_path", "dest_extends_host", "bad_enum",
          "wrong_root", "schema", "schema_child",      \* a required attribute / a required child element is missing
          "garbled_base64", "garbled_deflate", "truncated_xml", "not_xml"}
 \* issuerKey: metadata holds a signing key for the requester, or none
@@ -48,7 +51,9 @@ WellFormed(s) ==
     /\ (s.binding = "redirect" => s.sig = "none")                 \* redirect signatures live in the query (C15)
     /\ (s.rtype = "logout_sp" => ~s.want)                         \* the option is an IdP option
     /\ (s.mut = "garbled_deflate" => s.binding = "redirect")
-    /\ (s.mut = "schema_child" => s.rtype \in {"authn", "assertionid"})   \* the request types with a child of minimum occurrence 1
+    /\ (s.mut = "schema_child" => s.rtype \in {"authn", "assertionid"})
+    /\ (s.mut = "bad_enum" => s.rtype = "authn")
+    /\ (s.mut \in {"dest_extends_path", "dest_extends_host"} => s.endpoint = "configured")   \* the request types with a child of minimum occurrence 1
     /\ (s.mut = "garbled_base64" => s.binding # "soap")
     /\ (s.endpoint = "otherBindingOnly" => s.binding = "post")    \* receiver publishes a redirect endpoint only
     /\ (s.mut = "dest_other_binding" => s.endpoint = "configured" /\ s.rtype \notin Queries)
@@ -74,18 +79,18 @@ Signature ==
        ELSE IF scn.sig = "valid" THEN Goto("schema")
        ELSE IF scn.sig = "invalid" /\ scn.certOnly /\ ~Fixed THEN Goto("schema")      \* pinned: "if verified or only_valid_cert"
        ELSE Refuse                                          \* invalid; wrapped (repaired _check_signature)
-Schema == pc = "schema" /\ IF scn.mut \in {"schema", "schema_child", "stale_offset", "future_offset"} THEN Refuse ELSE Goto("verify")
+Schema == pc = "schema" /\ IF scn.mut \in {"schema", "schema_child", "stale_offset", "future_offset", "bad_enum"} THEN Refuse ELSE Goto("verify")
 \* Request._verify
 DestChecked == scn.endpoint = "configured" \/ Fixed
 Verify ==
     /\ pc = "verify"
-    /\ IF scn.mut \in {"dest_foreign", "dest_other_binding"} /\ DestChecked
+    /\ IF scn.mut \in {"dest_foreign", "dest_other_binding", "dest_extends_path", "dest_extends_host"} /\ DestChecked
        THEN Refuse
        ELSE IF scn.mut \in {"stale", "future", "stale26h", "future26h", "version_11", "version_2"} THEN Refuse
        ELSE verdict' = "hand" /\ pc' = "done" /\ UNCHANGED scn
 
 \* ---- contract
-MustRefuse == \/ scn.mut \in {"dest_foreign", "stale", "future", "stale26h", "future26h", "version_11", "version_2", "wrong_root", "schema", "schema_child", "stale_offset", "future_offset", "garbled_base64",
+MustRefuse == \/ scn.mut \in {"dest_foreign", "stale", "future", "stale26h", "future26h", "version_11", "version_2", "wrong_root", "schema", "schema_child", "stale_offset", "future_offset", "dest_extends_path", "dest_extends_host", "bad_enum", "garbled_base64",
                               "garbled_deflate", "truncated_xml", "not_xml"}
               \/ scn.sig \in {"invalid", "wrapped", "wrapped_ownref", "wrapped_prefix"}
               \/ (scn.sig # "none" /\ scn.issuerKey = "nokey")          \* a signature must verify under the issuer's metadata key
